@@ -211,31 +211,7 @@ def rule_b3(ctx: Ctx) -> None:
             ctx.violation("C03-B3", f, rets[0], "adjacent positions and adjacent values are returned in the wrong order")
 
 
-def _reach_conditions(fi: FuncInfo, wanted, classify):
-    """For every node selected by ``wanted`` say under which polarity of the classified test it is reached
-    ('T', 'F' or '?'): if/else, and `if C: ...; return` followed by the other case."""
-    out = {}
-
-    def flip(p):
-        return {"T": "F", "F": "T"}.get(p, "?")
-
-    def walk(stmts, cond):
-        for i, st in enumerate(stmts):
-            if isinstance(st, ast.If):
-                p = classify(st.test)
-                inner = (p if cond is None else "?") if p else cond
-                walk(st.body, inner)
-                walk(st.orelse, (flip(p) if cond is None else "?") if p else cond)
-                ends = bool(st.body) and isinstance(st.body[-1], (ast.Return, ast.Raise, ast.Continue, ast.Break))
-                if p and ends and not st.orelse and cond is None:
-                    walk(stmts[i + 1:], flip(p))
-                    return
-                continue
-            for n in ast.walk(st):
-                if wanted(n):
-                    out.setdefault(id(n), (n, set()))[1].add(cond if cond else "-")
-    walk(fi.body, None)
-    return [(n, (next(iter(c)) if len(c) == 1 else "?")) for n, c in out.values()]
+from ..core import reach_conditions as _reach_conditions  # noqa: E402
 
 
 def rule_b4(ctx: Ctx) -> None:
